@@ -59,7 +59,7 @@ func genPlan(t *rapid.T) Plan {
 	shutdown := false
 	leaveInFlight := false
 	leftEarlier := false // a Leave call of an earlier group has returned
-	elapsed := 300 // the groups start 300 ms after the cluster formed
+	elapsed := 300       // the groups start 300 ms after the cluster formed
 	for g := 0; g < ng; g++ {
 		grp := Group{AfterMs: rapid.SampledFrom([]int{0, 1, 100, 700, 3000, 9000}).Draw(t, "after")}
 		elapsed += grp.AfterMs
